@@ -38,6 +38,19 @@ func init() {
 				continue
 			}
 			variants := acceptedVariants(g, r.Appended)
+			// bytes the pinned schema prescribes for values with INCONSISTENT fields (a text-length field of 0 next to a non-empty
+			// text, zero scalars, …): accepted input that this library's own encoder might not produce
+			for k := 0; k < 2; k++ {
+				v2 := g.msg(v.Ty, k == 0, 0)
+				for fi, op := range t.fieldOps() {
+					if op.K == "scalar" && g.r.Intn(3) == 0 {
+						v2.Fs[fi] = &Val{K: 'n'}
+					}
+				}
+				if b, ok := renderPinned(v2); ok {
+					variants = append(variants, b)
+				}
+			}
 			if t.Frame != nil && len(r.Appended) >= hdrSize(t.Frame)+4+t.Frame.CksW {
 				// a frame whose length field claims MORE (or less) than the body's structural size, with that many bytes present
 				H := hdrSize(t.Frame)
